@@ -11,9 +11,10 @@ ALL_KINDS = ["buffer", "delay", "rate_limit", "timed_window", "timed_window_uniq
              "map_async", "latest", "plain"]
 KINDS = {
     "C02": ["buffer", "delay", "rate_limit", "timed_window", "timed_window_unique", "partition", "zip", "map_async", "plain"],
-    "C03": ["buffer", "zip", "map_async", "plain", "partition", "rate_limit", "timed_window", "delay"],
+    "C03": ["buffer", "zip", "zip3", "map_async", "plain", "partition", "rate_limit", "timed_window", "delay"],
     "C04": ALL_KINDS,
     "C05A": ALL_KINDS,
+    "C10A": ["buffer", "delay", "rate_limit", "timed_window", "timed_window_unique", "partition", "zip", "map_async", "latest", "plain"],
     "C08": ["timed_window", "timed_window_unique", "partition"],
     "C13": ["rate_limit", "delay"],
     "C14": ["latest"],
@@ -29,6 +30,8 @@ def oracle(prop, case, obs):
         return asyncoracle.check_refs(case, obs, want=("C04",))
     if prop == "C05A":
         return [f for f in asyncoracle.check_refs(case, obs, want=("C05",))]
+    if prop == "C10A":
+        return asyncoracle.check_c10(case, obs)
     if prop == "C08":
         return asyncoracle.check_c08(case, obs)
     if prop == "C13":
@@ -68,11 +71,12 @@ def single_node_part(prop, oprop, tier, rng, out, known, cov):
     for kind in KINDS[oprop]:
         for _ in range(n_per_kind):
             c = g.case(kind)
-            if oprop == "C14" and rng.random() < 0.4:
-                # several arrivals inside one loop iteration
-                pos = rng.randrange(len(c["actions"]) + 1)
-                base = 1000 + rng.randrange(100) * 10
-                c["actions"].insert(pos, ["burst", 0, [base + j for j in range(rng.choice([2, 3]))]])
+            if oprop == "C14" and rng.random() < 0.5:
+                # several arrivals inside one loop iteration / in consecutive loop callbacks
+                for _rep in range(rng.choice([1, 1, 2])):
+                    pos = rng.randrange(len(c["actions"]) + 1)
+                    base = 1000 + rng.randrange(100) * 10
+                    c["actions"].insert(pos, [rng.choice(["burst", "seq", "chain", "chain"]), 0, [base + j for j in range(rng.choice([2, 3]))]])
             try:
                 o = asyncfam.run_case(c)
             except Exception as e:
@@ -95,7 +99,7 @@ def single_node_part(prop, oprop, tier, rng, out, known, cov):
                 nfind += 1
                 break
     # correspondence (cases with a burst have no model action: oracle only)
-    modelled = [(c, o) for (c, o) in co if not any(a[0] == "burst" for a in c["actions"])]
+    modelled = [(c, o) for (c, o) in co if c["node"]["k"] in asyncrun.MODELS and not any(a[0] in ("burst", "seq", "chain") for a in c["actions"])]
     mism, errors = asyncrun.correspondence(prop, modelled)
     for p_, o_ in errors:
         out.violation("%s/correspondence-error" % prop, "coqc failed on generated cases: %s" % o_[-400:], {"file": p_}, no_input=True)
@@ -139,7 +143,7 @@ def chain_part(prop, oprop, tier, rng, out, known, cov):
 
 def run(prop, tier, seed, replay=None, extra=None):
     """prop: property id; the asynchronous part of C05 is invoked by check_sync with extra outcome."""
-    oprop = "C05A" if prop == "C05" else prop
+    oprop = {"C05": "C05A", "C10": "C10A"}.get(prop, prop)
     out = extra if extra is not None else common.Outcome(prop, tier, seed)
     proof = common.props_check(prop) if extra is None else None
     known = common.known_signatures(prop)
@@ -161,6 +165,9 @@ def run(prop, tier, seed, replay=None, extra=None):
     else:
         single_node_part(prop, oprop, tier, rng, out, known, cov)
         chain_part(prop, oprop, tier, rng, out, known, cov)
+        if prop == "C04" and extra is None:
+            import check_sync
+            cov["sync_part"] = check_sync.embedded(prop, tier, seed, out, known, want=("C04",))
         cov["rule"] = ("single asynchronous node between controlled source(s) and a controlled or synchronous sink on a stepped virtual-time loop; "
                        "random schedules of emit / consumer-completion / task-completion / time-advance followed by a drain phase; plus random chains of "
                        "synchronous and asynchronous nodes (oracle only); non-trivial = at least one delivery; distinct by JSON of the case")
